@@ -104,6 +104,19 @@ pub fn generate(seed: u64, thorough: bool, sink: &mut Sink) -> Vec<String> {
   push("state-machines", take(crate::c17::generate(seed, thorough, &mut scratch), per / 2).iter().map(|c| crate::c17::source(c)).collect(), sink);
   push("documents", take(crate::c10::generate(seed, thorough, &mut scratch), per / 2).iter().map(|c| crate::c10::source(c)).collect(), sink);
   push("samples", SAMPLES.iter().map(|s| s.to_string()).collect(), sink);
+  // chained subscripts on the reading side: x.a.b, t.1.2, r.a[2], x[2,:][3], in every order and of length 1-4
+  {
+    let mut rng = Rng::new(seed ^ 0xC8A1);
+    let subs = [".1", ".2", ".a", ".b", "[2]", "[1,:]", "[:,2]", "[1,2]", "[1..=2]", "{1}"];
+    let mut v: Vec<String> = vec![];
+    for _ in 0..per {
+      let k = 1 + rng.below(4) as usize;
+      let chain: String = (0..k).map(|_| *rng.pick(&subs)).collect();
+      match rng.below(3) { 0 => v.push(format!("q := x{}", chain)), 1 => v.push(format!("x{}", chain)), _ => v.push(format!("q := x{} + y{}", chain, rng.pick(&subs))) }
+    }
+    for s in ["t := ((1, 2), (3, 4))\nt.1.2", "r := {a: [1 2 3], b: 2}\nr.a[2]", "x := [1 2 3; 4 5 6]\nx[2,:][3]", "a := {b: {c: 1}}\na.b.c", "t := |a<f64> b<f64>| 1 2 | 3 4 |\nt.a[2]"] { v.push(s.to_string()); }
+    push("chained-subscripts", v, sink);
+  }
   // string literals: the body is a sequence of graphemes of known class; a quote in the body is always
   // preceded by a backslash, a backslash may stand before anything (an escape where one is defined)
   {
